@@ -4,6 +4,7 @@
 (* observation is not a behaviour.  Each terminal event carries the bytes          *)
 (* allocated during the call (GC off) and the action's postcondition is            *)
 (*      alloc <= C(parser) + K * Len(input)                                        *)
+(* ("crash" = the process died with an unrecoverable runtime error during the call, e.g. out of memory.)          *)
 (* with the constants stated next to the mechanism that justifies them:            *)
 (*  - signed-exchange prologue: two 3-byte length fields and one 2-byte field cap   *)
 (*    the buffers at 2^24 + 2^24 + 2^16 bytes                                      *)
